@@ -34,7 +34,7 @@ WALL_CAP = {'quick': 600, 'thorough': 3000}
 TYPES = ['p2pkh', 'p2sh', 'p2wpkh', 'p2wsh', 'p2tr']
 PLEN = {'p2pkh': 20, 'p2sh': 20, 'p2wpkh': 20, 'p2wsh': 32, 'p2tr': 32}
 FWD_ROUTES = ['address', 'address_obj', 'address_parsed', 'public_hash', 'lock_script']
-KEY_ROUTES = ['hdkey', 'hdkey_public', 'public_key']
+KEY_ROUTES = ['hdkey', 'hdkey_public', 'hdkey_address_obj', 'key_address_obj', 'public_key']
 HEXCHARS = frozenset(b'0123456789abcdefABCDEF')
 VALUE = 100000
 
@@ -125,13 +125,21 @@ def check_fwd(ctx, case):
         pub = ec.ser_compressed(pt) if compressed else ec.ser_uncompressed(pt)
         want_script, want_addr, want_type = _key_expect(kind, pub, net)
         payload = None
-        if route in ('hdkey', 'hdkey_public'):
+        if route in ('hdkey', 'hdkey_public', 'hdkey_address_obj', 'key_address_obj'):
             wt = {'p2pkh': 'legacy', 'p2wpkh': 'segwit', 'p2sh_p2wpkh': 'p2sh-segwit'}[kind]
 
             def build():
+                if route == 'key_address_obj':
+                    # the Address object a caller builds from a public key for this witness type
+                    a = lib.keys.Address(pub.hex(), witness_type=wt, network=net,
+                                         script_type=None if kind != 'p2sh_p2wpkh' else 'p2sh_p2wpkh',
+                                         encoding='bech32' if kind == 'p2wpkh' else 'base58')
+                    return _make_output(api, net, address=a)
                 k = lib.keys.HDKey(sec.to_bytes(32, 'big'), network=net, witness_type=wt)
                 if route == 'hdkey_public':
                     k = k.public()
+                if route == 'hdkey_address_obj':
+                    return _make_output(api, net, address=k.address_obj)
                 return _make_output(api, net, address=k)
         else:
             def build():
@@ -425,7 +433,7 @@ def matrix_items():
                                        'payload': p.hex()}))
         for si, sec in enumerate(SECRETS):
             for kind in ('p2pkh', 'p2wpkh', 'p2sh_p2wpkh'):
-                for route in ('hdkey', 'hdkey_public'):
+                for route in ('hdkey', 'hdkey_public', 'hdkey_address_obj', 'key_address_obj'):
                     for api in ('Output', 'add_output'):
                         items.append(('fwd.' + route, {'kind': 'fwd', 'route': route, 'api': api, 'net': net,
                                                        'type': kind, 'sec': '%064x' % sec}))
@@ -505,7 +513,7 @@ def run(ctx):
         'net': gen.networks(), 'type': st.just(kind), 'payload': payload_for(kind)})).map(
         lambda c: dict(c, api='Output') if c['route'] == 'public_hash' else c)
     keyr = st.fixed_dictionaries({
-        'kind': st.just('fwd'), 'route': st.sampled_from(['hdkey', 'hdkey_public', 'public_key']),
+        'kind': st.just('fwd'), 'route': st.sampled_from(['hdkey', 'hdkey_public', 'hdkey_address_obj', 'key_address_obj', 'public_key']),
         'api': st.sampled_from(['Output', 'add_output']), 'net': gen.networks(),
         'type': st.sampled_from(['p2pkh', 'p2wpkh', 'p2sh_p2wpkh']),
         'sec': gen.secrets().map(lambda d: '%064x' % d), 'pk_as': st.sampled_from(['bytes', 'hex'])}).map(
